@@ -15,6 +15,9 @@ import (
 
 var ErrServerStopped = errors.New("server already stopped")
 
+// Upper bound for the capacity reserved up front for a batch announced by the UDF.
+const maxBatchSizeHint = 1 << 16
+
 type Diagnostic interface {
 	Error(msg string, err error, ctx ...keyvalue.T)
 
@@ -698,7 +701,14 @@ func (s *Server) handleResponse(response *agent.Response) error {
 		return errors.New(msg.Error.Error)
 	case *agent.Response_Begin:
 		s.begin = msg.Begin
-		s.points = make([]edge.BatchPointMessage, 0, msg.Begin.Size)
+		// The size is only a hint from the peer, do not trust it with an allocation.
+		size := msg.Begin.Size
+		if size < 0 {
+			size = 0
+		} else if size > maxBatchSizeHint {
+			size = maxBatchSizeHint
+		}
+		s.points = make([]edge.BatchPointMessage, 0, size)
 	case *agent.Response_Point:
 		if s.points != nil {
 			bp := edge.NewBatchPointMessage(
@@ -734,6 +744,9 @@ func (s *Server) handleResponse(response *agent.Response) error {
 			}
 		}
 	case *agent.Response_End:
+		if s.begin == nil {
+			return errors.New("received end of batch without a begin")
+		}
 		begin := edge.NewBeginBatchMessage(
 			msg.End.Name,
 			msg.End.Tags,
@@ -754,7 +767,7 @@ func (s *Server) handleResponse(response *agent.Response) error {
 		s.begin = nil
 		s.points = nil
 	default:
-		panic(fmt.Sprintf("unexpected response message %T", msg))
+		return fmt.Errorf("unexpected response message %T", msg)
 	}
 	return nil
 }
